@@ -34,6 +34,8 @@ DirChoices(s, d) == {None} \cup {<<u, r>> : u \in Interior(s.deg[d], s.kv[d]), r
 \* every selected direction uses its smallest interior parameter (all counts still enumerated).
 InsArgs(s, allMulti) ==
   LET ch(d) == {None} \cup UNION {{<<u, r>> : r \in InsCounts(s.deg[d], s.kv[d], u)} : u \in Interior(s.deg[d], s.kv[d])}
+                      \* both domain ends (multiplicity degree + 1 for clamped vectors): a single copy is already refused
+                      \cup {<<DomLo(s.deg[d], s.kv[d]), 1>>, <<DomHi(s.deg[d], s.kv[d]), 1>>}
       tup == IF PDim(s) = 1 THEN {<<a>> : a \in ch(1)}
              ELSE IF PDim(s) = 2 THEN {<<a, b>> : a \in ch(1), b \in ch(2)}
              ELSE {<<a, b, c>> : a \in ch(1), b \in ch(2), c \in ch(3)}
